@@ -9,6 +9,7 @@ import (
 	"go/token"
 	"go/types"
 	"math/big"
+	"strconv"
 	"strings"
 	"sync"
 
@@ -103,6 +104,7 @@ type Exec struct {
 	env      map[string]*big.Int
 	envMemo  map[int]*Term
 	nTrivial    int
+	nPanicTriv  int
 	callLog     []string
 	funcsSeen   map[string]bool
 }
@@ -237,7 +239,35 @@ func (x *Exec) pinVars(t *Term) map[string]*big.Int {
 }
 
 func (x *Exec) feasible(c *Term) string {
+	c = x.simp(c)
+	if c.IsConst() {
+		if c.IsTrue() {
+			return "sat"
+		}
+		return "unsat"
+	}
+	// cache per instance: replays of a path prefix ask the same questions again
+	buf := make([]byte, 0, 8*len(x.pc)+32)
+	for _, t := range x.pc {
+		buf = strconv.AppendInt(buf, int64(x.simp(t).id), 36)
+		buf = append(buf, ',')
+	}
+	for _, t := range x.hfacts {
+		buf = strconv.AppendInt(buf, int64(t.id), 36)
+		buf = append(buf, ';')
+	}
+	buf = strconv.AppendInt(buf, int64(len(x.in.strs)), 36)
+	buf = append(buf, '|')
+	buf = strconv.AppendInt(buf, int64(c.id), 36)
+	key := string(buf)
+	if r, ok := x.inst.feasCache[key]; ok {
+		x.inst.CacheHits++
+		return r
+	}
 	r, _ := x.query([]*Term{c}, nil)
+	if r != "unknown" {
+		x.inst.feasCache[key] = r
+	}
 	return r
 }
 
@@ -357,14 +387,17 @@ func (x *Exec) requireInfeasible(c *Term, why string) {
 // obligation: safe must hold or the real code panics here.
 func (x *Exec) obligation(safe *Term, what string) {
 	safe = x.simp(safe)
+	if x.checkPanics {
+		x.nPanicObl++
+	}
 	if safe.IsTrue() {
+		x.nPanicTriv++
 		return
 	}
 	if !x.checkPanics {
 		x.addPC(safe)
 		return
 	}
-	x.nPanicObl++
 	if safe.IsFalse() {
 		x.recordPanic(nil, what)
 		panic(pathEnd{"panic", what})
@@ -716,6 +749,9 @@ func (x *Exec) selectElem(elems []Value, idx *Term) Value {
 				continue
 			}
 			panic(unsupported("symbolic index into strings that are not single tokens"))
+		}
+		if len(symIdx) == 0 && len(keys) == len(elems) {
+			return x.mkStr([]Atom{tabTok(idx, vals)})
 		}
 		v, _ := pwApply(keys, vals, idx, IDW, BVi(0, IDW))
 		for _, i := range symIdx {
@@ -1380,24 +1416,20 @@ func (x *Exec) bytesToString(sl SliceV) Value {
 	return string(bs)
 }
 
-// strLen: byte length of a string value as BV64.
+// strLen: byte length of a string value as BV64 (an uninterpreted function of the text).
 func (x *Exec) strLen(s Value) *Term {
 	if c, ok := s.(string); ok {
 		return BVi(int64(len(c)), 64)
 	}
-	// symbolic: opaque non-negative length tied to the rendered atoms
-	n := x.fresh("strlen", 64)
+	h := sha256sum([]byte(renderAtoms(toAtoms(s))))
+	n := Var(fmt.Sprintf("strlen_%x", h[:8]), 64)
 	x.addPC(Not(Slt(n, BVi(0, 64))))
-	pos := false
 	for _, a := range toAtoms(s) {
 		if a.K == ALit || a.K == ASep || a.K == AItoa {
-			pos = true
+			x.addPC(Slt(BVi(0, 64), n))
+			break
 		}
 	}
-	if pos {
-		x.addPC(Slt(BVi(0, 64), n))
-	}
-	x.note("imprecise: length of symbolic string")
 	return n
 }
 
@@ -1547,7 +1579,48 @@ func (x *Exec) sliceElems(sl SliceV, what string) []Value {
 	off := int(x.concretize(sl.Off, "offset of "+what).Int64())
 	a := sl.Obj.Val.(*ArrV)
 	x.access(sl.Obj, nil, false)
-	return a.Elems[off : off+n]
+	out := a.Elems[off : off+n]
+	for i, e := range out {
+		if t, ok := e.(*Term); ok && t.Op == "ite" {
+			out[i] = x.resolveIte(t)
+		}
+	}
+	return out
+}
+
+// resolveIte removes ite layers whose condition the path condition already decides
+// (solver-aided simplification; the result is equal to t on this path).
+func (x *Exec) resolveIte(t *Term) *Term {
+	t = x.simp(t)
+	if t.Op != "ite" {
+		return t
+	}
+	// distinct leaves of the ite tree
+	var leaves []*Term
+	seen := map[int]bool{}
+	var rec func(u *Term)
+	rec = func(u *Term) {
+		if seen[u.id] || len(leaves) > 6 {
+			return
+		}
+		seen[u.id] = true
+		if u.Op == "ite" {
+			rec(u.Args[1])
+			rec(u.Args[2])
+			return
+		}
+		leaves = append(leaves, u)
+	}
+	rec(t)
+	if len(leaves) > 6 {
+		return t
+	}
+	for _, l := range leaves {
+		if x.feasible(Ne(t, l)) == "unsat" {
+			return l
+		}
+	}
+	return t
 }
 
 // ---- maps
@@ -1845,6 +1918,7 @@ func (x *Exec) builtinCopy(dst SliceV, srcv Value) Value {
 	for i, e := range sa.Elems {
 		old[i] = asTerm(e)
 	}
+	delta := Sub(src.Off, dst.Off)
 	for j := range da.Elems {
 		jt := BVi(int64(j), 64)
 		rel := Sub(jt, dst.Off) // j - dstoff
@@ -1852,7 +1926,7 @@ func (x *Exec) builtinCopy(dst SliceV, srcv Value) Value {
 		if inr.IsFalse() {
 			continue
 		}
-		sidx := Add(src.Off, rel)
+		sidx := Add(jt, delta)
 		var v *Term
 		if sidx.IsConst() {
 			k := sidx.Int64()
